@@ -2022,6 +2022,10 @@ class Processor:
                     data, parent, parentref, translated_path, ancestry,
                     peekseg)
 
+                # One match is enough; the calling code applies the next
+                # segment to this node, yielding every match itself.
+                break
+
             # Then, recurse into each child to perform the same test.
             if isinstance(data, dict):
                 for key, val in data.items():
